@@ -96,6 +96,18 @@ func clItemComparatorTables(c *Ctx) {
 	ks := []int64{-7, -1, 0, 1, 3}
 	borns := []int64{1, 2, 3, 4000000000}
 	deads := []int64{0, 2, 5}
+	// every other scalar field of the item header (dataLen, ...) is an atom
+	// too: the reference tables do not depend on it
+	var others []*types.Var
+	if st, ok := p.Named("nitro", "Item").Underlying().(*types.Struct); ok {
+		for i := 0; i < st.NumFields(); i++ {
+			f := st.Field(i)
+			if _, isB := f.Type().Underlying().(*types.Basic); isB && f != fBorn && f != fDead {
+				others = append(others, f)
+			}
+		}
+	}
+	otherVals := [][2]int64{{3, 3}, {3, 9}, {9, 3}}
 	type spec struct {
 		ctor string
 		ref  func(k, tb, hb, td, hd int64) (want int, zeroOnly bool)
@@ -129,23 +141,28 @@ func clItemComparatorTables(c *Ctx) {
 				for _, hb := range borns {
 					for _, td := range deads {
 						for _, hd := range deads {
-							atoms := map[*types.Var][2]int64{fBorn: {tb, hb}, fDead: {td, hd}}
-							ret, ordOK, _, m := evalComparator(p, fn, k, atoms)
-							if m != "" {
-								msg = m
-								break outer
-							}
-							pts++
-							if !ordOK {
-								orderBad = true
-							}
-							want, zeroOnly := s.ref(k, tb, hb, td, hd)
-							okv := sign(ret) == want
-							if zeroOnly {
-								okv = (ret == 0) == (want == 0)
-							}
-							if !okv {
-								bad = append(bad, fmt.Sprintf("keyCmp=%d this(born=%d,dead=%d) that(born=%d,dead=%d): returns %d, reference sign %d", k, tb, td, hb, hd, ret, want))
+							for _, ov := range otherVals {
+								atoms := map[*types.Var][2]int64{fBorn: {tb, hb}, fDead: {td, hd}}
+								for _, of := range others {
+									atoms[of] = ov
+								}
+								ret, ordOK, _, m := evalComparator(p, fn, k, atoms)
+								if m != "" {
+									msg = m
+									break outer
+								}
+								pts++
+								if !ordOK {
+									orderBad = true
+								}
+								want, zeroOnly := s.ref(k, tb, hb, td, hd)
+								okv := sign(ret) == want
+								if zeroOnly {
+									okv = (ret == 0) == (want == 0)
+								}
+								if !okv {
+									bad = append(bad, fmt.Sprintf("keyCmp=%d this(born=%d,dead=%d,len=%d) that(born=%d,dead=%d,len=%d): returns %d, reference sign %d", k, tb, td, ov[0], hb, hd, ov[1], ret, want))
+								}
 							}
 						}
 					}
